@@ -138,6 +138,12 @@ def run(tier, seed):
     hists = list(itertools.product(sops, repeat=1)) + list(itertools.product(sops, repeat=2))
     all3 = list(itertools.product(sops, repeat=3))
     hists += all3 if tier == "thorough" else rnd.sample(all3, 1500)
+    # longer histories over a reduced universe (2 names, 2 strategies), exhaustively: re-assignments of what is already
+    # there, a default that loses its names and is re-chosen, ...
+    small = [("set", ("a",), "f"), ("set", ("a",), "g"), ("set", ("b",), "f"), ("set", ("b",), "g"), ("set", ("a", "b"), "f"),
+             ("del", "a"), ("del", "b"), ("delattr", "a")]
+    hists += list(itertools.product(small, repeat=4))
+    hists += list(itertools.product(small, repeat=5)) if tier == "thorough" else rnd.sample(list(itertools.product(small, repeat=5)), 3000)
     for hist in hists:
         sd, mdl, default = StrategyDict(), Model(), [None]
         msg = None
@@ -188,4 +194,4 @@ def run(tier, seed):
             if msg:
                 break
         R.check(msg is None, "strategydict-attributes-default-and-call", {"history": [list(map(str, o)) for o in hist]}, msg)
-    return R.result("all MultiKeyDict histories of length <= %d over keys {1,2,3} (fresh key objects), values {a,b}, single keys and 5 key tuples (%d operations); StrategyDict histories of length <= 2 exhaustively and 1500 sampled (thorough: all) of length 3" % (depth, len(ops)))
+    return R.result("all MultiKeyDict histories of length <= %d over keys {1,2,3} (fresh key objects), values {a,b}, single keys and 5 key tuples (%d operations); StrategyDict histories of length <= 2 exhaustively and 1500 sampled (thorough: all) of length 3 over 3 names, all of length 4 and 3000 sampled (thorough: all) of length 5 over 2 names / 2 strategies" % (depth, len(ops)))
